@@ -37,14 +37,25 @@ def kvRun (k : KV) (ops : List KVOp) : KV := ops.foldl kvApply k
 
 /-- **C03 (construction).**  On separated knot values the constructor accepts exactly the well-formed
 lists, and stores the degree `multiplicity of the first value − 1`. -/
-theorem C03_mk_iff_WF (v : List Rat) (hsep : Separated v) :
+theorem C03_mk_iff_WF_exact (v : List Rat) :
     (∃ k, KV.mk? v none = .ok k) ↔ WF v (cnt v (v.headD 0) - 1) := by
   constructor
   · rintro ⟨k, hk⟩
-    exact isValid_WF v hsep (mk?_ok v k hk).1
+    exact isValid_WF_exact v (mk?_ok v k hk).1
   · intro h
     have hv := WF_isValid v _ rfl h
     exact ⟨⟨v, cnt v (v.headD 0) - 1⟩, by simp [KV.mk?, hv]⟩
+
+theorem C03_mk_iff_WF (v : List Rat) (_hsep : Separated v) :
+    (∃ k, KV.mk? v none = .ok k) ↔ WF v (cnt v (v.headD 0) - 1) := C03_mk_iff_WF_exact v
+
+/-- malformed data is rejected, and with ValueError — for every list of rationals (no separation hypothesis since the
+multiplicity check of the constructor counts every value exactly) -/
+theorem C03_ctor_rejects_exact (v : List Rat) (h : ¬ WF v (cnt v (v.headD 0) - 1)) :
+    KV.mk? v none = .error .value := by
+  cases hr : KV.mk? v none with
+  | error e => rw [mk?_error v e hr]
+  | ok k => exact absurd ((C03_mk_iff_WF_exact v).mp ⟨k, hr⟩) h
 
 /-- malformed data is rejected, and with ValueError -/
 theorem C03_ctor_rejects (v : List Rat) (hsep : Separated v) (h : ¬ WF v (cnt v (v.headD 0) - 1)) :
